@@ -52,6 +52,8 @@ class Ctx:
         os.makedirs(self.dir, exist_ok=True)
         self.failures = []  # dicts: {key, what, case}
         self.cov = {}
+        self.regen_key = None
+        self.no_evidence = False
         self.assumptions = []
         self.mc = []  # model checking runs
 
@@ -69,6 +71,17 @@ class Ctx:
         findings are matched on; what: human text; case: everything needed to
         replay."""
         self.failures.append({"key": key, "what": what, "case": case})
+
+    def regenerate(self):
+        """Replay for checks whose inputs are regenerated from the seed: re-run the check with the seed and tier
+        recorded in the replay file and report only failures of the same class (key) as the recorded one."""
+        with open(self.replay) as fh:
+            rec = json.load(fh)
+        self.seed = int(rec.get("seed", self.seed))
+        self.tier = rec.get("tier", self.tier)
+        self.regen_key = json.dumps(rec["key"], sort_keys=True)
+        self.no_evidence = True
+        self.replay = None
 
 
 # --------------------------------------------------------------------------
@@ -412,6 +425,8 @@ def finish(ctx, level, coverage, assumptions=None):
             reported.append(f)
     for kid, (k, n) in sorted(known_hit.items()):
         print(f"KNOWN-FINDING: property={ctx.prop} {k['what']} [{kid}; {n} failing cases matched]", flush=True)
+    if ctx.regen_key is not None:
+        reported = [f for f in reported if json.dumps(f["key"], sort_keys=True) == ctx.regen_key]
     # one replay file per distinct failure class (key), capped
     groups = {}
     for f in reported:
@@ -421,7 +436,7 @@ def finish(ctx, level, coverage, assumptions=None):
         rp = ctx.path("replay", f"{ctx.prop}-{i:03d}.json")
         with open(rp, "w") as fh:
             json.dump({"property": ctx.prop, "what": f["what"], "key": f["key"], "case": f["case"],
-                       "same_class": len(fs)}, fh)
+                       "same_class": len(fs), "seed": ctx.seed, "tier": ctx.tier}, fh)
         print(f"VIOLATION property={ctx.prop} replay={rp}", flush=True)
         log(f"  -> {f['what'][:400]}  key={k[:300]} ({len(fs)} cases)")
     if len(groups) > 25:
@@ -438,7 +453,7 @@ def finish(ctx, level, coverage, assumptions=None):
         "violations": len(reported),
     }
     ev["coverage"]["known_findings_matched"] = sum(n for _, n in known_hit.values())
-    if ctx.replay is None:
+    if ctx.replay is None and not ctx.no_evidence:
         # runs against a deliberately broken tree (bin/seedtest) keep the committed evidence untouched
         evdir = os.environ.get("VERIF_EVIDENCE_DIR") or os.path.join(VERIF, "evidence")
         os.makedirs(evdir, exist_ok=True)
